@@ -532,6 +532,11 @@ func (d cffDict) readPrivate(p *parser.Parser, strings *cffStrings) (*privateInf
 		return nil, errors.New("cff: missing Private DICT")
 	}
 
+	if int64(pdOffs)+int64(pdSize) > p.Size() {
+		// Check this before allocating a buffer of the claimed size.
+		return nil, errors.New("cff: Private DICT extends beyond end of file")
+	}
+
 	err := p.SeekPos(int64(pdOffs))
 	if err != nil {
 		return nil, err
